@@ -52,7 +52,7 @@ func (propC12) Gen(r *Rng, tier string) *World {
 	w.Cfg = g.C
 	w.Cfg.Event = []string{"report", "debug"}[r.Intn(2)]
 	w.Cfg.ViaDirect = r.P(0.2)
-	w.Cfg.DirStyle = r.Intn(4)
+	w.Cfg.DirStyle = r.Intn(6)
 	w.Masks = []int{r.Intn(16)}
 	ops := SpecMap(w.Cfg.Ops)
 	p := Plan{Kind: []string{"eval", "eval", "tryeval"}[r.Intn(3)], Bind: g.Binding()}
@@ -75,6 +75,22 @@ func (propC12) Gen(r *Rng, tier string) *World {
 		}
 	}
 	w.Calls = []Plan{p}
+	// further calls on the same Expr, with other bindings: events of earlier
+	// calls are retained while later calls run
+	for i, n := 0, []int{0, 0, 1, 2}[r.Intn(4)]; i < n; i++ {
+		q := Plan{Kind: []string{"eval", "eval", "tryeval"}[r.Intn(3)], Bind: g.Binding()}
+		if q.Kind == "tryeval" && r.P(0.5) {
+			for _, v := range w.Cfg.Vars {
+				if r.P(0.3) {
+					q.Unavail = append(q.Unavail, v.Name)
+				}
+			}
+		}
+		if r.P(0.3) {
+			q.FailOps = p.FailOps
+		}
+		w.Calls = append(w.Calls, q)
+	}
 	w.ChCap = []int{0, 0, 1, 2, 3, 8, -1}[r.Intn(7)] // -1 = ample
 	w.Extra = map[string]string{}
 	if r.P(0.4) {
@@ -245,7 +261,6 @@ func (pr propC12) Run(w *World, st *Stats) *Violation {
 		w.Masks = []int{w.Cfg.OptMask}
 	}
 	mask := w.Masks[0]
-	p := &w.Calls[0]
 	if w.Cfg.Event == "" {
 		w.Cfg.Event = "report"
 	}
@@ -275,51 +290,85 @@ func (pr propC12) Run(w *World, st *Stats) *Violation {
 		return viol(w, "dump-unreadable", "Dump output cannot be read back: %v", derr)
 	}
 	nodes := c.NodeCount()
-	base := c0.Run(ops, p, "eval")
-	st.Evals++
-	if base.Panic != nil {
-		return viol(w, "panic", "%s without events panicked: %v\n%s", p.Kind, base.Panic, base.Stack)
-	}
-	st.T("world %x mask %d ev=%s cap=%d dump=%s", wh, mask, w.Cfg.Event, w.ChCap, oneLine(d1.Text))
+	st.T("world %x mask %d ev=%s cap=%d calls=%d dump=%s", wh, mask, w.Cfg.Event, w.ChCap, len(w.Calls), oneLine(d1.Text))
 
-	// ---- INLINE, ample buffer: every event waits in the channel until the call has returned
-	out := c.Run(ops, p, "eval")
-	st.Evals++
-	st.Steps += int64(out.Env.N)
-	st.AddFaults(out.Env.Fired)
-	st.Path(pathHash(&out))
-	if out.Panic != nil {
-		return viol(w, "panic", "%s with events panicked: %v\n%s", p.Kind, out.Panic, out.Stack)
+	// ---- INLINE, ample buffer. The calls run one after another on the same
+	// Expr; each call's events are taken out of the channel only after it has
+	// returned and are retained, as received, until every call is done.
+	type callRec struct {
+		p      *Plan
+		base   Outcome
+		out    Outcome
+		kept   []eval.Event // as received
+		copies []eval.Event // deep copies taken at receipt
 	}
-	st.T(" inline %s -> %s %s events=%d", p.Canon(), out.Class(), ValStr(out.Val), len(out.Events))
-	if d := sameOutcome(&base, &out); d != "" {
-		return viol(w, "result-changed", "enabling %s changes the result of %s: %s", w.Cfg.Event, p.Kind, d)
+	recs := make([]*callRec, len(w.Calls))
+	only := func(i int) *World { // the world reduced to calls 0..i (later calls cannot matter)
+		c := w.Clone()
+		c.Calls = c.Calls[:i+1]
+		return c
 	}
-	if kind, msg := checkEvents(w, ops, tree, p, &out, out.Events, nodes, st); kind != "" {
-		return viol(w, kind, "[consumer reads events after the call returned] %s\ndump: %s", msg, oneLine(d1.Text))
-	}
-	nOps := 0
-	for _, ev := range out.Events {
-		if ev.EventType == eval.OpExecEvent {
-			nOps++
+	totalOps := 0
+	for i := range w.Calls {
+		p := &w.Calls[i]
+		r := &callRec{p: p}
+		recs[i] = r
+		r.base = c0.Run(ops, p, "eval")
+		st.Evals++
+		if r.base.Panic != nil {
+			return viol(only(i), "panic", "%s without events panicked: %v\n%s", p.Kind, r.base.Panic, r.base.Stack)
+		}
+		r.out = c.Run(ops, p, "eval")
+		st.Evals++
+		st.Steps += int64(r.out.Env.N)
+		st.AddFaults(r.out.Env.Fired)
+		st.Path(pathHash(&r.out))
+		if r.out.Panic != nil {
+			return viol(only(i), "panic", "%s with events panicked: %v\n%s", p.Kind, r.out.Panic, r.out.Stack)
+		}
+		st.T(" inline call %d %s -> %s %s events=%d", i, p.Canon(), r.out.Class(), ValStr(r.out.Val), len(r.out.Events))
+		if d := sameOutcome(&r.base, &r.out); d != "" {
+			return viol(only(i), "result-changed", "enabling %s changes the result of call %d (%s): %s", w.Cfg.Event, i, p.Kind, d)
+		}
+		r.kept = r.out.Events
+		for _, ev := range r.kept {
+			r.copies = append(r.copies, deepCopyEvent(ev))
+			if ev.EventType == eval.OpExecEvent {
+				totalOps++
+			}
+		}
+		// inspection right after this call
+		if kind, msg := checkEvents(w, ops, tree, p, &r.out, r.kept, nodes, st); kind != "" {
+			return viol(only(i), kind, "[call %d; consumer reads events after the call returned] %s\ndump: %s", i, msg, oneLine(d1.Text))
+		}
+		// every event retained from earlier calls is still intact
+		for j := 0; j <= i; j++ {
+			for k := range recs[j].kept {
+				if !eventsEqual(recs[j].kept[k], recs[j].copies[k]) {
+					return viol(only(i), "retained-event-clobbered", "event %d of call %d read %q when received; after call %d it reads %q", k, j, eventStr(recs[j].copies[k]), i, eventStr(recs[j].kept[k]))
+				}
+			}
 		}
 	}
-	if nOps >= 2 && hasControl(w.Prog) {
+	if totalOps >= 2 && hasControl(w.Prog) {
 		st.Nontrivial(wh)
 	}
 	st.Faults["consumer_retain"]++
-	st.ProbeN("op_exec_events", nOps)
+	st.ProbeN("op_exec_events", totalOps)
+	if len(w.Calls) > 1 {
+		st.Probe("multi_call_worlds")
+	}
 
 	// ---- BUBBLE: the scheduler is the consumer
 	if w.Extra["bubble"] == "1" && workerT != nil {
 		capacity := w.ChCap
 		if capacity < 0 {
-			capacity = 4*nodes + 16
+			capacity = len(w.Calls)*(4*nodes+16) + 16
 		}
 		cb, _, _ := CompileSpec(&w.Cfg, w.Prog, mask, w.Cfg.ViaDirect, NewEnv(ops, &Plan{}))
 		cb.NoDrain = true
 		st.Evals++
-		var bout *Outcome
+		bouts := make([]*Outcome, 0, len(w.Calls))
 		b := &Bubble{W: w, St: st}
 		b.Setup = func(b *Bubble) {
 			ch := make(chan eval.Event, capacity) // created inside the bubble
@@ -327,22 +376,26 @@ func (pr propC12) Run(w *World, st *Stats) *Violation {
 			cb.Expr.EventChan = ch
 			b.Chans = []chan eval.Event{ch}
 		}
-		b.Tasks = []*mtask{{id: 0, steps: []Step{{Op: p.Kind, Plan: p}}}}
-		b.Knobs = BubbleKnobs{PSwitch: 0.5, PRecv: 0.5, StallTask: -1, MaxSteps: 40*nodes + 400}
+		var script []Step
+		for i := range w.Calls {
+			script = append(script, Step{Op: w.Calls[i].Kind, Plan: &w.Calls[i]})
+		}
+		b.Tasks = []*mtask{{id: 0, steps: script}}
+		b.Knobs = BubbleKnobs{PSwitch: 0.5, PRecv: 0.5, StallTask: -1, MaxSteps: len(w.Calls) * (40*nodes + 400)}
 		if v, e := strconv.ParseFloat(w.Extra["p_recv"], 64); e == nil {
 			b.Knobs.PRecv = v
 		}
 		var bad *Violation
 		b.Exec = func(task, call int, s Step, yield func(kind, name string)) *Outcome {
-			env := NewEnv(ops, p)
+			env := NewEnv(ops, s.Plan)
 			env.Yield = yield
-			o := cb.RunEnv(env, p.Kind)
-			bout = &o
+			o := cb.RunEnv(env, s.Plan.Kind)
+			bouts = append(bouts, &o)
 			return &o
 		}
 		// (v) at every receipt, every event retained so far still equals its at-receipt copy
 		b.OnRecv = func(b *Bubble, r *Recv) {
-			if bout != nil {
+			if len(bouts) == len(w.Calls) {
 				r.Returned = true
 			}
 			if bad != nil {
@@ -356,7 +409,7 @@ func (pr propC12) Run(w *World, st *Stats) *Violation {
 			}
 		}
 		b.Run(workerT)
-		st.Evals++
+		st.Evals += int64(len(w.Calls))
 		st.Steps += int64(b.Steps)
 		st.Sched(schedHash(b.Taken))
 		st.Faults["chan_capacity_"+strconv.Itoa(w.ChCap)]++
@@ -373,29 +426,46 @@ func (pr propC12) Run(w *World, st *Stats) *Violation {
 			return bad
 		}
 		// (vii) bounded liveness
-		if b.Stuck || bout == nil {
+		if b.Stuck || len(bouts) != len(w.Calls) {
 			return viol(bw, "stuck", "the evaluator did not finish although the consumer drained: %s", b.StuckInfo)
 		}
-		if bout.Panic != nil {
-			return viol(bw, "panic", "%s panicked under back-pressure: %v\n%s", p.Kind, bout.Panic, bout.Stack)
+		for i, bo := range bouts {
+			if bo.Panic != nil {
+				return viol(bw, "panic", "%s panicked under back-pressure: %v\n%s", w.Calls[i].Kind, bo.Panic, bo.Stack)
+			}
+			if d := sameOutcome(&recs[i].base, bo); d != "" {
+				return viol(bw, "result-changed", "with channel capacity %d and a slow consumer the result of call %d (%s) changes: %s", w.ChCap, i, w.Calls[i].Kind, d)
+			}
 		}
-		if d := sameOutcome(&base, bout); d != "" {
-			return viol(bw, "result-changed", "with channel capacity %d and a slow consumer the result of %s changes: %s", w.ChCap, p.Kind, d)
-		}
-		// final inspection, after the call returned
-		late := make([]eval.Event, len(b.Recvd))
+		// final inspection, after every call returned
 		delayed := 0
 		for i := range b.Recvd {
 			if !eventsEqual(b.Recvd[i].Ev, b.Recvd[i].Copy) {
-				return viol(bw, "retained-event-clobbered", "event received at step %d read %q then; after the call returned it reads %q", b.Recvd[i].Step, eventStr(b.Recvd[i].Copy), eventStr(b.Recvd[i].Ev))
+				return viol(bw, "retained-event-clobbered", "event received at step %d read %q then; after the calls returned it reads %q", b.Recvd[i].Step, eventStr(b.Recvd[i].Copy), eventStr(b.Recvd[i].Ev))
 			}
-			late[i] = b.Recvd[i].Ev
 			if b.Recvd[i].Returned {
 				delayed++
 			}
 		}
-		if kind, msg := checkEvents(w, ops, tree, p, bout, late, nodes, st); kind != "" {
-			return viol(bw, kind, "[capacity %d, scheduler as consumer] %s\ndump: %s", w.ChCap, msg, oneLine(d1.Text))
+		// the consumer's timing must not change what is reported: the stream
+		// splits into the calls' event sequences exactly as in the inline run
+		pos := 0
+		for i, r := range recs {
+			n := len(r.kept)
+			if pos+n > len(b.Recvd) {
+				return viol(bw, "missing-event", "with channel capacity %d the consumer received %d events; the same calls produce %d when the events are read after each call", w.ChCap, len(b.Recvd), pos+n)
+			}
+			late := make([]eval.Event, n)
+			for k := 0; k < n; k++ {
+				late[k] = b.Recvd[pos+k].Ev
+			}
+			pos += n
+			if kind, msg := checkEvents(w, ops, tree, r.p, bouts[i], late, nodes, st); kind != "" {
+				return viol(bw, kind, "[call %d; capacity %d, scheduler as consumer] %s\ndump: %s", i, w.ChCap, msg, oneLine(d1.Text))
+			}
+		}
+		if pos != len(b.Recvd) {
+			return viol(bw, "extra-event", "with channel capacity %d the consumer received %d events; the same calls produce %d when the events are read after each call", w.ChCap, len(b.Recvd), pos)
 		}
 		st.Probe("bubble_runs")
 		st.ProbeN("events_received_after_call_returned", delayed)
